@@ -61,6 +61,7 @@ pub fn new_box(area: &str) -> Option<Box<dyn VerifBox>> {
         )),
         "c09" => Some(Box::new(crate::protocol::verif_c09::KeepAliveBox::new())),
         "c05" => Some(Box::new(crate::transport::manager::verif_c05::ManagerBox::new())),
+        "tcploop" => Some(Box::new(crate::transport::tcp::verif_tcploop::LoopBox::new())),
         _ => None,
     }
 }
@@ -87,6 +88,7 @@ pub fn areas() -> Vec<&'static str> {
         "c18",
         "c19",
         "c20",
+        "tcploop",
     ]
 }
 
